@@ -2,7 +2,11 @@
 
 package vhost
 
-import "net"
+import (
+	"net"
+
+	"github.com/fatedier/frp/zzverif"
+)
 
 // harness accessors (overlay only)
 
@@ -11,6 +15,8 @@ func (v *Muxer) ZZHandle(c net.Conn) { v.handle(c) }
 func (v *Muxer) ZZSetVhostFunc(f func(net.Conn) (net.Conn, map[string]string, error)) { v.vhostFunc = f }
 
 func (v *Muxer) ZZRoutes() int {
+	v.registryRouter.mutex.RLock()
+	defer v.registryRouter.mutex.RUnlock()
 	n := 0
 	for _, byUser := range v.registryRouter.indexByDomain {
 		for _, rs := range byUser {
@@ -24,6 +30,8 @@ func (v *Muxer) ZZRoutes() int {
 func ZZNewReverseProxy(rs *Routers) *HTTPReverseProxy { return &HTTPReverseProxy{vhostRouter: rs} }
 
 func (r *Routers) ZZCount() int {
+	r.mutex.RLock()
+	defer r.mutex.RUnlock()
 	n := 0
 	for _, byUser := range r.indexByDomain {
 		for _, rs := range byUser {
@@ -34,12 +42,16 @@ func (r *Routers) ZZCount() int {
 }
 
 func (r *Routers) ZZHas(domain, location, user string) bool {
+	r.mutex.RLock()
+	defer r.mutex.RUnlock()
 	_, ok := r.exist(domain, location, user)
 	return ok
 }
 
 // ZZRouteUsername returns the Username of the RouteConfig registered for exactly this triple ("" + false if none).
 func (r *Routers) ZZRouteUsername(domain, location, user string) (string, bool) {
+	r.mutex.RLock()
+	defer r.mutex.RUnlock()
 	vr, ok := r.exist(domain, location, user)
 	if !ok {
 		return "", false
@@ -49,3 +61,7 @@ func (r *Routers) ZZRouteUsername(domain, location, user string) (string, bool) 
 	}
 	return "?", true
 }
+
+func (r *Routers) ZZGuard(name string) { zzverif.Guard(r.indexByDomain, &r.mutex, name) }
+
+func (v *Muxer) ZZGuard(name string) { v.registryRouter.ZZGuard(name) }
